@@ -498,7 +498,9 @@ def r4_precedence(repo, report):
             k = y[2]
             if isfile:
                 nfile += 1
-                m = re.search(r", (COPY@\d+\(([^)]*)\)), name=", k)
+                from .builder_rules import term_args
+                sp = str(term_args(repo, k).get("search_parameters", ""))
+                m = re.fullmatch(r"(COPY@\d+\(([^)]*)\))", sp)
                 if not m or m.group(2) != G2:
                     bad.append(("file-level parameters are not a copy of the global ones", k[:200]))
                     continue
@@ -507,7 +509,8 @@ def r4_precedence(repo, report):
                 if len(ups) != 1 or not ups[0].startswith(f"{cp}.update(FILEPARAMS("):
                     bad.append(("file-level parameters not applied", ups))
             else:
-                if f", {G2})" not in k and f", {G2}," not in k:
+                from .builder_rules import term_args
+                if str(term_args(repo, k).get("search_parameters", "")) != G2:
                     bad.append(("plain specification does not get the global parameters", k[:160]))
         if any(e[0] in ("call", "store") and e[1].startswith(G2 + ".") and not e[1].endswith(".copy") for e in r.effects):
             bad.append(("the global parameter dict is modified", [e[1] for e in r.effects if e[1].startswith(G2 + ".")]))
